@@ -13,6 +13,10 @@ pub enum Ty {
     Unit,
     /// clone- and drop-counting value
     Ck,
+    /// neither Send nor Clone
+    Ns,
+    /// move-only
+    Mv,
     Opt(Box<Ty>),
     Res(Box<Ty>),
     Vec(Box<Ty>),
@@ -31,6 +35,8 @@ impl Ty {
             Ty::Bool => "bool".into(),
             Ty::Unit => "()".into(),
             Ty::Ck => "Ck".into(),
+            Ty::Ns => "Ns".into(),
+            Ty::Mv => "Mv".into(),
             Ty::Opt(t) => format!("Option<{}>", t.name()),
             Ty::Res(t) => format!("Result<{}, i64>", t.name()),
             Ty::Vec(t) => format!("Vec<{}>", t.name()),
@@ -141,6 +147,8 @@ pub enum Family {
 
 #[derive(Clone, Debug)]
 pub struct ChainBranch {
+    /// statements defining caller-side locals the branch borrows from (emitted on both sides)
+    pub locals: Vec<String>,
     pub init_ty: Ty,
     pub init_text: String,
     pub ops: Vec<COp>,
@@ -169,6 +177,8 @@ pub struct CG<'a> {
     pub forced_done: bool,
     /// probability of the counting type `Ck` where a scalar is drawn
     pub ck: f64,
+    /// probability of the !Send / move-only types `Ns` / `Mv` where a scalar is drawn
+    pub ns: f64,
 }
 
 fn rb(rng: &mut TestRng, p: f64) -> bool {
@@ -189,6 +199,9 @@ impl<'a> CG<'a> {
         let k = if max_depth == 0 { self.rng.random_range(0..4) } else { self.rng.random_range(0..9) };
         if k < 4 && rb(self.rng, self.ck) {
             return Ty::Ck;
+        }
+        if k < 4 && rb(self.rng, self.ns) {
+            return if rb(self.rng, 0.6) { Ty::Ns } else { Ty::Mv };
         }
         match k {
             0 => Ty::I64,
@@ -285,6 +298,9 @@ impl<'a> CG<'a> {
             return self.try_wrapper(c, cur, in_wrapper);
         }
         let sync = self.fam == Family::Sync;
+        // a hoisted *value* (not a Copy callback) cannot be moved out of a wrapper closure that may
+        // be called repeatedly
+        let allow_cap_val = allow_cap && !in_wrapper;
         match (c, cur) {
             // ------------------------------------------------ Option
             (Comb::Map, Ty::Opt(t)) | (Comb::Map, Ty::Res(t)) | (Comb::Map, Ty::Iter(t)) => {
@@ -312,7 +328,7 @@ impl<'a> CG<'a> {
                 Some(self.plain(c, vec![o], cur.clone()))
             }
             (Comb::Or, Ty::Opt(_)) | (Comb::Or, Ty::Res(_)) => {
-                let o = self.altv(cur, allow_cap);
+                let o = self.altv(cur, allow_cap_val);
                 Some(self.plain(c, vec![o], cur.clone()))
             }
             (Comb::OrElse, Ty::Opt(_)) => {
@@ -330,7 +346,7 @@ impl<'a> CG<'a> {
             }
             (Comb::Zip, Ty::Opt(t)) => {
                 let u = self.any_ty(0);
-                let o = self.altv(&Ty::Opt(u.clone().b()), allow_cap);
+                let o = self.altv(&Ty::Opt(u.clone().b()), allow_cap_val);
                 Some(self.plain(c, vec![o], Ty::Opt(Ty::Tup(t.clone(), u.b()).b())))
             }
             (Comb::Flatten, Ty::Opt(t)) => match &**t {
@@ -376,14 +392,14 @@ impl<'a> CG<'a> {
             },
             (Comb::Fold, Ty::Iter(t)) => {
                 let acc = self.any_ty(1);
-                let i = self.altv(&acc, allow_cap);
+                let i = self.altv(&acc, allow_cap_val);
                 let id = self.id();
                 let f = self.maybe_cap(format!("cb2::<{}, {}, {}>({})", acc.name(), t.name(), acc.name(), id), allow_cap);
                 Some(self.plain(c, vec![i, f], acc))
             }
             (Comb::TryFold, Ty::Iter(t)) => {
                 let acc = self.any_ty(1);
-                let i = self.altv(&acc, allow_cap);
+                let i = self.altv(&acc, allow_cap_val);
                 let id = self.id();
                 let res = if rb(self.rng, 0.5) { Ty::Opt(acc.clone().b()) } else { Ty::Res(acc.clone().b()) };
                 let f = self.maybe_cap(format!("cb2::<{}, {}, {}>({})", acc.name(), t.name(), res.name(), id), allow_cap);
@@ -391,11 +407,11 @@ impl<'a> CG<'a> {
             }
             (Comb::Zip, Ty::Iter(t)) => {
                 let u = self.any_ty(0);
-                let o = self.altv(&Ty::Vec(u.clone().b()), allow_cap);
+                let o = self.altv(&Ty::Vec(u.clone().b()), allow_cap_val);
                 Some(self.plain(c, vec![o], Ty::Iter(Ty::Tup(t.clone(), u.b()).b())))
             }
             (Comb::Chain, Ty::Iter(t)) => {
-                let o = self.altv(&Ty::Vec(t.clone()), allow_cap);
+                let o = self.altv(&Ty::Vec(t.clone()), allow_cap_val);
                 Some(self.plain(c, vec![o], cur.clone()))
             }
             (Comb::Collect, Ty::Iter(t)) => {
@@ -525,7 +541,7 @@ impl<'a> CG<'a> {
                     cands.push(("clone()".into(), (**u).clone()));
                 }
             }
-            Ty::Unit | Ty::Ck => {}
+            Ty::Unit | Ty::Ck | Ty::Ns | Ty::Mv => {}
         }
         if cands.is_empty() {
             return None;
@@ -675,7 +691,12 @@ fn default_ok(t: &Ty) -> bool {
 }
 
 fn clone_ok(t: &Ty) -> bool {
-    !matches!(t, Ty::Iter(_) | Ty::Ref(_))
+    match t {
+        Ty::Iter(_) | Ty::Ref(_) | Ty::Ns | Ty::Mv => false,
+        Ty::Opt(u) | Ty::Res(u) | Ty::Vec(u) => clone_ok(u),
+        Ty::Tup(a, b) => clone_ok(a) && clone_ok(b),
+        _ => true,
+    }
 }
 
 // ------------------------------------------------------------------------------ rendering
